@@ -251,9 +251,9 @@ CHECKS = {
     ),
     'C02': dict(
         category='other',
-        text=('(a) Bounded exploration, enumerated by z3 and executed natively on real .xlsx files through the real Parser, of 93 reference spellings '
+        text=('(a) Bounded exploration, enumerated by z3 and executed natively on real .xlsx files through the real Parser, of 124 reference spellings '
               '(relative / $-absolute, bare / unquoted / quoted sheet prefix, cell, row and column ranges, rectangles, whole columns, other sheets, missing '
-              'sheets) x 3 formula sheets x 5 positions (operand, SUM, SUM twice, COUNTIFS range, INDEX with every (row, column)); the cells hold distinct '
+              'sheets) x 4 formula sheets x 5 positions (operand, SUM, SUM twice, COUNTIFS range, INDEX with every (row, column)); the cells hold distinct '
               'powers of two, so SUM identifies the exact set of cells and INDEX their order; a missing sheet must be rejected. (b) reference text -> '
               'token -> handle_cell: z3-enumerated pieces (title spelling, $ flags, boundary columns A..ZZZ, boundary rows, trailing character) must '
               'come back as the intended indices; every one of the 18 278 column names is run concretely.'),
